@@ -33,7 +33,9 @@ def gen_struct(rnd, depth=0):
 
 
 def flatten(s, out):
-    if isinstance(s, (list, tuple)):
+    if isinstance(s, Tag):
+        out.append(s)
+    elif isinstance(s, (list, tuple)):
         for x in s:
             flatten(x, out)
     elif isinstance(s, dict):
@@ -96,6 +98,12 @@ def apply_recipe(recipe, leaves):
     return res
 
 
+class Tag(tuple):
+    """leaf marker that flatten() does not descend into"""
+    def __new__(cls, t):
+        return tuple.__new__(cls, t)
+
+
 def shape_results(rnd_seed, vals):
     """deterministically nest a flat list of result leaves into list/tuple/dict containers"""
     rnd = random.Random(rnd_seed)
@@ -109,8 +117,11 @@ def shape_results(rnd_seed, vals):
         return tuple(vals)
     if k < 0.8:
         return {"r%d" % i: v for i, v in enumerate(vals)}
-    cut = rnd.randint(1, len(vals) - 1)
-    return [tuple(vals[:cut]), {"t": list(vals[cut:])}]
+    if k < 0.9:
+        cut = rnd.randint(1, len(vals) - 1)
+        return [tuple(vals[:cut]), {"t": list(vals[cut:])}]
+    inner = list(vals)
+    return [inner, inner, {"same": inner}]        # the same result container returned several times
 
 
 def main():
@@ -157,6 +168,11 @@ def worker(job):
         out_vars = []
         for call in range(ncalls):
             args = tuple(gen_struct(rnd) for _ in range(rnd.randint(1, 3)))
+            if rnd.random() < 0.3:
+                # aliasing: the same container object reachable twice (f(v, v), [row] * n, a dict value shared with a list slot)
+                v = rnd.choice([a for a in args if isinstance(a, (list, tuple, dict))] or [[rnd.randint(0, 9), rnd.randint(0, 9)]])
+                args = rnd.choice([args + (v,), (v, v), ([v] * rnd.randint(2, 3),), args + ({"again": v, "n": 1},)])
+                conts.add("aliased")
             leaves = flatten(list(args), [])
             recipe = gen_recipe(rnd, leaves)
             shape_seed = rnd.random()
@@ -191,20 +207,19 @@ def worker(job):
                     exp_in.append(x)
                 elif isinstance(x, float):
                     exp_in.append(int(x * (1 << res_bits)))
-            plain_leaves = flatten([plain_res], [])
-            secret_mask = []
-            for (op, i, j, c), pv in zip(recipe, plain_leaves):
-                secret_mask.append(op != "plain")
-            # which result leaves are fixed-point typed: any float operand involved
-            exp_out = []
-            for (op, i, j, c), pv in zip(recipe, plain_leaves):
+            # expected public outputs: one per *position* of a secret result in the returned structure (a container returned
+            # twice is published twice), fixed-point typed when a float operand is involved
+            flat_vals = apply_recipe(recipe, leaves)
+            tags = []
+            for (op, i, j, c), pv in zip(recipe, flat_vals):
                 if op == "plain":
-                    continue
-                if op in ("lt", "eq"):
-                    exp_out.append(int(bool(pv)))
-                    continue
-                isfx = isinstance(leaves[i], float) or (op in ("add", "sub") and isinstance(leaves[j], float))
-                exp_out.append(int(pv * (1 << res_bits)) if isfx else int(pv))
+                    tags.append(("plain", None))
+                elif op in ("lt", "eq"):
+                    tags.append(("out", int(bool(pv))))
+                else:
+                    isfx = isinstance(leaves[i], float) or (op in ("add", "sub") and isinstance(leaves[j], float))
+                    tags.append(("out", int(pv * (1 << res_bits)) if isfx else int(pv)))
+            exp_out = [t[1] for t in flatten([shape_results(shape_seed, [Tag(t) for t in tags])], []) if t[0] == "out"]
             det = dict(args=repr(args), recipe=recipe, result=repr(plain_res), resolution=res_bits, p=p,
                        published=[v for _, v in pubs], expected=exp_in + exp_out)
             desc.append(det)
@@ -250,11 +265,12 @@ def worker(job):
         R.sample(dict(calls=desc), cap=4)
         # kwargs refused
         if case_no % 10 == 0:
-            try:
-                prt.snark(lambda a, b=1: a)(3, b=2)
-                R.violation("kwargs-accepted", "keyword arguments were accepted")
-            except ValueError:
-                R.count("kwargs_refused")
+            for kw in ({"b": 2}, {"b": 0}, {"b": None}, {"b": False}, {"b": []}, {"b": 0.0}, {"b": ""}):
+                try:
+                    prt.snark(lambda a, b=1: a)(3, **kw)
+                    R.violation("kwargs-accepted", "keyword argument %r was accepted" % (kw,), kwargs=repr(kw))
+                except ValueError:
+                    R.count("kwargs_refused")
     return R.export()
 
 
